@@ -651,6 +651,18 @@ def discharge_site(eng, cf, cn, pidx, sidx, need):
             return False, "no live fact (%s - %s) >= %d" % (cs.split(":")[-1], sym, need), None
     if pr.kind in ("vec", "obj", "localobj", "call", "element"):
         return True, "object-owned buffer (class invariant, R2/R3)", None
+    if pr.kind == "cursor" and pr.off is not None:
+        # the moving message pointer: a validator result on (cursor, remaining) live at the call guarantees the bytes
+        fs = eng.mf(cf).at(cn)
+        best = 0
+        for a in fs:
+            if a[0] == "truth" and a[2] is True and a[3].get("k") == "call" and len(a[3].get("args", [])) >= 2 and \
+                    canon(strip_all_casts(a[3]["args"][0])) == pr.base:
+                sv = canon(strip_all_casts(a[3]["args"][1]))
+                best = max(best, eng.facts_lb(cf, cn, sv, pr.base)[0])
+        if best >= pr.off + need:
+            return True, "", None
+        return False, "no validator result on the moving pointer `%s` guarantees %d bytes here (guaranteed: %d)" % (pr.base.split(":")[-1], pr.off + need, best), None
     return False, "pointer of unknown provenance (%r)" % pr, None
 
 
